@@ -1309,6 +1309,8 @@ func runC14(w *World, r *Report) {
 	r.rule("malformed-stream-refused", "a second self-sealed vertex and an empty transaction in the stream each lead to cancel (never to the loaded flag)", 2)
 	syncGuardObligations(w, r, "malformed-stream-refused")
 
+	reserveBeforeInsert(w, r, "duplicate-transaction-refused", "LoadDag", 1)
+
 	// transport: a stream that broke is not mistaken for one that ended
 	r.rule("transport-reports-failure", "serving handler: the error of stream.Send can reach the handler's result; loading client: the errors of stream.Recv and of the vertex mapping can reach updateDag's result (a broken stream is not reported as a clean end)", 2)
 	transport := []struct{ fn, callee, what string }{
